@@ -25,6 +25,7 @@
 @*/
 use super::*;
 use crate::vk_prelude::*;
+use crate::ExecutionControlFlow;
 
 type Sh = Shell<extensions::DefaultShellExtensions>;
 
